@@ -6,4 +6,5 @@ CONSTANTS
 CONSTRAINT Bound
 INVARIANT IndInv
 INVARIANT Safety
+PROPERTY NoCuts
 CHECK_DEADLOCK FALSE
